@@ -84,6 +84,10 @@ func simParent(p Context) *simCtx {
 	}
 }
 
+// cancelTree reads a slice built by the scheduler goroutine (which runs with
+// race synchronisation disabled), hence norace.
+//
+//go:norace
 func cancelTree(p unsafe.Pointer, code int64) {
 	kids := simrt.CtxCancel("ctx.cancel", p, code)
 	for _, k := range kids {
